@@ -83,16 +83,21 @@ fn ask_shortfall(pool: &PoolInfo, before: &[u128], after: &[u128]) -> Option<(Bi
     None
 }
 
-/// degenerate pool: normalised reserves skewed beyond 1000:1, or an asset with < 1000 smallest units
+/// degenerate pool: normalised reserves skewed beyond 1000:1, an asset with < 1000 smallest units,
+/// or less than a millionth of a whole token in total
 pub fn degenerate(pool: &PoolInfo, reserves: &[u128]) -> bool {
     if reserves.iter().any(|x| *x < 1000) {
         return true;
     }
     match normalise(reserves, &pool.asset_decimals) {
-        Some((b, _)) => {
+        Some((b, mxd)) => {
             let mx = b.iter().max().unwrap();
             let mn = b.iter().min().unwrap();
-            mx > &(mn * 1000u32)
+            // the swap path computes in 18-digit decimals of WHOLE tokens: below a millionth of a
+            // token in total, products of two amounts keep only a couple of significant digits
+            let total: BigUint = b.iter().sum();
+            let micro_token = BigUint::from(10u64).pow(mxd.saturating_sub(6));
+            mx > &(mn * 1000u32) || total < micro_token
         }
         None => false,
     }
